@@ -182,7 +182,7 @@ func c18ScriptExec(maxN int, preemptive bool, allowMutate bool) explore.Exec {
 }
 
 // inner actions performed inside a visitor callback
-var c18Inner = []string{"Get", "Min", "Totals", "NestedVisit", "Snapshot", "Iterator", "Len", "Set", "Delete", "Flush", "Evict", "SetNew", "SetColl(y)", "SetColl+RemoveColl(y)", "Stats"}
+var c18Inner = []string{"Get", "Min", "Totals", "NestedVisit", "Snapshot", "Iterator", "Len", "Set", "Delete", "Flush", "Evict", "SetNew", "SetColl(y)", "SetColl+RemoveColl(y)", "Stats", "SetColl(x)", "RemoveColl(x)"}
 
 func c18Reentrant(maxN int) explore.Exec {
 	apis := []string{"Ascend", "Descend", "AscendEx", "DescendEx", "IterAscend", "IterDescend", "BlockEx", "Random"}
@@ -204,6 +204,7 @@ func c18Reentrant(maxN int) explore.Exec {
 			w.Hist = append(w.Hist, desc)
 			col := w.Colls["x"]
 			pinned := w.M.Cur.Colls["x"].Clone()
+			singleVisit := apis[api] != "BlockEx" && apis[api] != "Random" // those are sequences of separate visits
 			doInner := func() {
 				switch c18Inner[inner] {
 				case "Get":
@@ -239,12 +240,22 @@ func c18Reentrant(maxN int) explore.Exec {
 					w.RemoveCollection("y")
 				case "Stats":
 					w.Stats()
+				case "SetColl(x)", "RemoveColl(x)":
+					// the visitor retires the very handle it is being called from; the
+					// visit in flight goes on over the version it pinned (the block and
+					// random visits are sequences of separate visits: not offered there)
+					if singleVisit {
+						if c18Inner[inner] == "SetColl(x)" {
+							w.SetCollection("x", "nil")
+						} else {
+							w.RemoveCollection("x")
+						}
+					}
 				}
 				harness.BeginOp("outer " + apis[api])
 			}
 			var got []string
 			seen := 0
-			singleVisit := apis[api] != "BlockEx" && apis[api] != "Random" // those are sequences of separate visits
 			cb := func(it *gkvlite.Item) bool {
 				if !w.ItemLive(it) {
 					w.Fail("refcount", "visited-item-released", "outer %s handed the visitor an item that had been released (%s)", apis[api], desc)
@@ -464,7 +475,7 @@ func c18Profiles(tier string) []Profile {
 		{Name: "scripts", Exec: c18ScriptExec(nS, true, false), Budget: map[int]int{explore.ClassSched: bound}, ShardLevel: 3, FreeRun: true,
 			Rule: fmt.Sprintf("collection sizes 0..%d x {cached, flushed+re-opened} x direction x withValue x every consumer word over {Next, Close} (ending in Close or in a Next that returned false, plus up to two further calls after the end; then AllocStats while the producer winds down) x every interleaving of consumer and producer goroutine with at most %d preemptions (channels are modelled inside the scheduler: a blocked goroutine is visibly not enabled); afterwards the consumer mutates, runs a second iterator and reads everything. Oracles: delivered sequence = model range; Next after Close/exhaustion is false; no deadlock (no enabled thread while the consumer is unfinished); no leak (no library goroutine alive at quiescence); the pinned version is released (reference count of the current version back to 1, not chained)", nS, bound)},
 		{Name: "reentrant", Exec: c18Reentrant(nR), ShardLevel: 2,
-			Rule: fmt.Sprintf("collection sizes 1..%d x {cached, flushed+re-opened} x outer API in {Ascend, Descend, AscendEx, DescendEx, IterateAscend, IterateDescend, AscendBlockEx, Random} x every callback position x inner call in {Get, Min, GetTotals, nested visit, Snapshot+read+Close, iterator with early close, Len, Set (overwrite), Set (new key), Delete, Flush, EvictSomeItems, SetCollection of another name, SetCollection+RemoveCollection of another name, Stats/AllocStats/MarshalJSON} on the same store; re-acquiring a held lock would show as 'no enabled thread'. Oracles: no deadlock/hang/panic, inner results = model, the outer visit still delivers exactly the version pinned at its start, final contents = model", nR)},
+			Rule: fmt.Sprintf("collection sizes 1..%d x {cached, flushed+re-opened} x outer API in {Ascend, Descend, AscendEx, DescendEx, IterateAscend, IterateDescend, AscendBlockEx, Random} x every callback position x inner call in {Get, Min, GetTotals, nested visit, Snapshot+read+Close, iterator with early close, Len, Set (overwrite), Set (new key), Delete, Flush, EvictSomeItems, SetCollection of another name, SetCollection+RemoveCollection of another name, Stats/AllocStats/MarshalJSON, SetCollection / RemoveCollection of the collection being visited (the handle the visit runs on is retired under it)} on the same store; re-acquiring a held lock would show as 'no enabled thread'. Oracles: no deadlock/hang/panic, inner results = model, the outer visit still delivers exactly the version pinned at its start, final contents = model", nR)},
 	}
 }
 
